@@ -3,9 +3,16 @@
    offline checker.  One process per scenario (fork), because the header keeps
    its state in function-local statics.
 
-   usage: embed_stub <first_seed> <count> <mode>     (mode: 0 normal, 1 heavy delays)
+   usage: embed_stub <first_seed> <count> <mode>
+     mode bit 0: heavy delays; bit 1: directed scenario (>= 2 threads; thread 0
+     goes first, the others make their first call exactly while the
+     initializing thread is held at a chosen point of the start-up sequence)
    prints one line per scenario:
-     S <seed> <verdict> nthreads=.. nlibs=.. beh=.. sig=<hash> events=<n> [detail]
+     S <seed> <verdict> nthreads=.. nlibs=.. beh=.. pre=.. gate=.. hit=.. late=..
+       kinds=.. sig=<hash> events=<n> [detail]
+   beh: per library N (no inner call) / S (init code calls its own extern
+   function or cffi_start_python) / O (calls the other library), + F when the
+   init code fails afterwards.
 */
 #define _GNU_SOURCE
 #include <Python.h>
@@ -18,6 +25,7 @@
 #include <signal.h>
 #include <sys/wait.h>
 #include <sys/time.h>
+#include <time.h>
 #include "stub.h"
 
 /* ---------------- event log ---------------- */
@@ -30,8 +38,11 @@ static __thread unsigned int my_rng;
 static __thread int my_wait;
 static volatile int thread_wait[8];
 static volatile long progress;         /* non-spin events */
-static int heavy;
+static int heavy, directed;
 static unsigned int scen_seed;
+static volatile int arrived[3];        /* thread entered its first operation */
+static volatile int finished[3];
+static volatile int first_done[3];
 
 void stub_ev(int lib, int kind, int a)
 {
@@ -41,6 +52,8 @@ void stub_ev(int lib, int kind, int a)
     }
     if (kind != EV_CAS)
         __sync_fetch_and_add(&progress, 1);
+    if ((kind == EV_CALL_ENTER || kind == EV_START_ENTER) && my_tid >= 0)
+        arrived[my_tid] = 1;
 }
 
 void stub_set_waiting(int w)
@@ -56,10 +69,30 @@ static unsigned int rnd(void)
     return (my_rng >> 16) & 0x7fff;
 }
 
+/* stall points (as in priority-change-point schedulers): the n-th delay point of
+   one thread becomes a long stall, until the other threads have logged stall_len
+   more events (or all are blocked / finished, or ~5 ms) */
+static int nstalls, stall_tid[2], stall_at[2], stall_len[2], nthreads;
+static volatile int stalls_taken;
+static __thread int yield_no;
+
 void stub_yield(int lib, int point)
 {
     unsigned int r = rnd() % 100;
+    int s, k, t, n = yield_no++;
     (void)lib; (void)point;
+    for (s = 0; s < nstalls; s++)
+        if (my_tid == stall_tid[s] && n == stall_at[s]) {
+            int target = nev + stall_len[s];
+            __sync_fetch_and_add(&stalls_taken, 1);
+            for (k = 0; k < 25 && nev < target; k++) {
+                int others_stuck = 1;
+                for (t = 0; t < nthreads; t++)
+                    if (t != my_tid && !finished[t] && !thread_wait[t]) others_stuck = 0;
+                if (others_stuck) break;
+                usleep(200);
+            }
+        }
     if (r < 35)
         sched_yield();
     else if (r < (heavy ? 60 : 42))
@@ -67,11 +100,45 @@ void stub_yield(int lib, int point)
 }
 
 /* ---------------- scenario ---------------- */
-static int behaviour[2];
-static int nthreads, nlibs;
-static int plan[3][3], plan_len[3];
+static int fails[2];                   /* the init code raises at its end */
+static int recurse[2];                 /* init code: 0 no call, 1 calls its own library, 2 the other */
+static int inner_kind[2];              /* which operation the init code performs */
+static int preinit;                    /* the host process initialized Python already */
+static int nlibs;
+static int plan[3][3], plan_kind[3][3], plan_len[3];
+/* directed scenarios: the first thread that reaches point gate_point is held
+   there until every other thread has entered its first operation and is
+   blocked (or a bounded grace period is over); the other threads start their
+   first operation when the point is reached.
+   1 = inside Py_InitializeEx, 2 = init code started, 3 = inside the extern
+   "Python" function called by the init code, 4 = init code after that call */
+static int gate_point;
+static int start_barrier;              /* undirected scenarios: all threads start together */
+static pthread_barrier_t barrier;
+static volatile int gate_reached, hold_result;
+static __thread int init_depth;
 
-int stub_behaviour(int lib) { return behaviour[lib]; }
+static void hold_point(int p)
+{
+    int n, t, grace = 0;
+    if (gate_point != p || !__sync_bool_compare_and_swap(&gate_reached, 0, p))
+        return;
+    for (n = 0; n < 10000; n++) {
+        int all_blocked = 1, all_arrived = 1;
+        for (t = 0; t < nthreads; t++) {
+            if (t == my_tid || finished[t]) continue;
+            if (!arrived[t]) all_arrived = 0;
+            if (!(arrived[t] && thread_wait[t])) all_blocked = 0;
+        }
+        if (all_blocked) { hold_result = 1; return; }
+        if (all_arrived && ++grace > 25) { hold_result = 2; return; }
+        usleep(200);
+    }
+    hold_result = 3;
+}
+
+int stub_result_byte(int lib, int arg, int i) { return 0x80 | ((arg + 3 * i + 17 * lib) & 0x7f); }
+void stub_in_extern_python(int lib) { (void)lib; if (init_depth > 0) hold_point(3); }
 
 /* ---------------- stubbed CPython ---------------- */
 static volatile int py_initialized;
@@ -79,6 +146,7 @@ static volatile int py_init_count;
 static pthread_mutex_t gil;             /* recursive */
 static __thread int gil_depth;
 static __thread int err_flag;
+static volatile int misuse;            /* 1 GIL released but not held, 2 GILState_Ensure before Py_Initialize */
 static PyObject dummy_obj = { _PyObject_EXTRA_INIT { 1 << 29 }, NULL };
 PyTypeObject PyCapsule_Type;            /* all zero: tp_as_buffer == NULL */
 PyObject _Py_NoneStruct;
@@ -96,6 +164,7 @@ static void gil_acquire(void)
 }
 static void gil_release(void)
 {
+    if (gil_depth <= 0) { misuse = 1; return; }   /* a fatal error in the real CPython */
     if (--gil_depth == 0)
         pthread_mutex_unlock(&gil);
 }
@@ -107,13 +176,18 @@ void Py_InitializeEx(int initsigs)
     stub_ev(-1, EV_PYINIT, 0);
     __sync_fetch_and_add(&py_init_count, 1);
     stub_yield(-1, 10);
+    hold_point(1);
     gil_acquire();                       /* the initializing thread holds the GIL */
     py_initialized = 1;
 }
 void Py_Initialize(void) { Py_InitializeEx(1); }
 PyThreadState *PyEval_SaveThread(void) { gil_release(); return NULL; }
 void PyEval_InitThreads(void) { }
-PyGILState_STATE PyGILState_Ensure(void) { stub_yield(-1, 11); gil_acquire(); return PyGILState_UNLOCKED; }
+PyGILState_STATE PyGILState_Ensure(void)
+{
+    if (!py_initialized) misuse = 2;
+    stub_yield(-1, 11); gil_acquire(); return PyGILState_UNLOCKED;
+}
 void PyGILState_Release(PyGILState_STATE s) { (void)s; gil_release(); }
 PyObject *PyErr_Occurred(void) { return err_flag ? &dummy_obj : NULL; }
 void PyErr_Fetch(PyObject **a, PyObject **b, PyObject **c) { err_flag = 0; *a = &dummy_obj; *b = NULL; *c = NULL; }
@@ -145,24 +219,38 @@ PyObject *Py_CompileString(const char *s, const char *fn, int start)
     return Py_CompileStringExFlags(s, fn, start, NULL, -1);
 }
 
+static void do_op(int lib, int kind, int arg, unsigned char *out, int *start_res)
+{
+    if (kind == STUB_OP_START)
+        *start_res = lib == 0 ? lib0_start() : lib1_start();
+    else if (lib == 0)
+        lib0_call(kind, arg, out);
+    else
+        lib1_call(kind, arg, out);
+}
+
 /* the scripted init code of library L, "running as Python code" with the GIL held */
 PyObject *PyEval_EvalCode(PyObject *co, PyObject *g, PyObject *l)
 {
     int lib = (int)(co - code_obj);
-    int beh = behaviour[lib], saved, r;
+    int saved, r = 0;
+    unsigned char out[24];
     (void)g; (void)l;
     stub_ev(lib, EV_INIT_START, 0);
+    init_depth++;
     stub_yield(lib, 12);
-    if (beh == BEH_RECURSE_SELF || beh == BEH_CALL_OTHER) {
+    hold_point(2);
+    if (recurse[lib]) {
         /* calling a C function through cffi releases the GIL around the call */
         saved = gil_depth;
         gil_depth = 1; gil_release();
-        r = (beh == BEH_RECURSE_SELF) == (lib == 0) ? lib0_call(7) : lib1_call(7);
-        (void)r;
+        do_op(recurse[lib] == 1 ? lib : 1 - lib, inner_kind[lib], 0x11223307, out, &r);
         gil_acquire(); gil_depth = saved;
+        hold_point(4);
     }
     stub_yield(lib, 13);
-    if (beh == BEH_FAIL) {
+    init_depth--;
+    if (fails[lib]) {
         stub_ev(lib, EV_INIT_END_FAIL, 0);
         err_flag = 1;
         return NULL;
@@ -172,18 +260,27 @@ PyObject *PyEval_EvalCode(PyObject *co, PyObject *g, PyObject *l)
 }
 
 /* ---------------- threads ---------------- */
-static int results[3][3];
-static volatile int finished[3];
+static unsigned char results[3][3][24];
+static int start_res[3][3];
+static const int kind_size[STUB_NKINDS] = { 4, 1, 8, 24 };
+#define ARG(t, k) (0x11223300 + 10 * (t) + (k) + 1)     /* no zero byte */
 
 static void *worker(void *arg)
 {
-    int t = (int)(long)arg, i;
+    int t = (int)(long)arg, i, n;
     my_tid = t;
     my_rng = (777u * (unsigned)(t + 1) + scen_seed * 2654435761u) ^ (heavy ? 0x5555u : 0);
+    if (start_barrier)
+        pthread_barrier_wait(&barrier);
+    if (directed && t > 0)
+        for (n = 0; n < 10000 && !gate_reached && !first_done[0]; n++)
+            usleep(200);
     for (i = 0; i < plan_len[t]; i++) {
         int lib = plan[t][i];
-        stub_yield(lib, 20);
-        results[t][i] = lib == 0 ? lib0_call(10 * t + i + 1) : lib1_call(10 * t + i + 1);
+        if (!(directed && i == 0) && !(start_barrier && i == 0 && (scen_seed & 1)))
+            stub_yield(lib, 20);
+        do_op(lib, plan_kind[t][i], ARG(t, i), results[t][i], &start_res[t][i]);
+        first_done[t] = 1;
     }
     finished[t] = 1;
     return NULL;
@@ -192,13 +289,18 @@ static void *worker(void *arg)
 static unsigned int srng;
 static unsigned int srnd(void) { srng ^= srng << 13; srng ^= srng >> 17; srng ^= srng << 5; return (srng >> 3) & 0x7fff; }
 
+static int late_arrivals;
+
 static const char *check(char *detail)
 {
     int i, n = nev < MAXEV ? nev : MAXEV;
     int init_start[2] = {0, 0}, init_thread[2] = {-1, -1}, init_end[2] = {0, 0};
     int init_failed[2] = {0, 0};
-    int t, k;
+    int t, k, j;
     if (py_init_count > 1) { sprintf(detail, "Py_InitializeEx ran %d times", py_init_count); return "VIOLATION:python-initialized-twice"; }
+    if (preinit && py_init_count > 0) { sprintf(detail, "Py_InitializeEx called although the host process had initialized Python"); return "VIOLATION:python-initialized-twice"; }
+    if (misuse == 1) { sprintf(detail, "PyEval_SaveThread / PyGILState_Release by a thread that does not hold the GIL (fatal error in CPython)"); return "VIOLATION:python-api-misuse:gil-released-but-not-held"; }
+    if (misuse == 2) { sprintf(detail, "PyGILState_Ensure before Python is initialized (crash in CPython)"); return "VIOLATION:python-api-misuse:gilstate-ensure-before-py-initialize"; }
     for (i = 0; i < n; i++) {
         struct ev *e = &evlog[i];
         if (e->kind == EV_INIT_START) {
@@ -207,6 +309,10 @@ static const char *check(char *detail)
         }
         else if (e->kind == EV_INIT_END_OK) init_end[e->lib] = 1;
         else if (e->kind == EV_INIT_END_FAIL) { init_end[e->lib] = 1; init_failed[e->lib] = 1; }
+        else if (e->kind == EV_CALL_ENTER || e->kind == EV_START_ENTER) {
+            if (init_start[e->lib] && !init_end[e->lib] && e->tid != init_thread[e->lib])
+                late_arrivals++;
+        }
         else if (e->kind == EV_CALL_PYTHON) {
             if (!init_end[e->lib] && e->tid != init_thread[e->lib]) {
                 sprintf(detail, "thread %d ran an extern-Python function of lib%d at event %d before its init finished", e->tid, e->lib, i);
@@ -217,19 +323,59 @@ static const char *check(char *detail)
                 return "VIOLATION:call-ran-after-failed-init";
             }
         }
+        else if (e->kind == EV_START_RETURN && e->a == 0) {
+            if (!init_end[e->lib] && e->tid != init_thread[e->lib]) {
+                sprintf(detail, "thread %d: cffi_start_python() of lib%d returned 0 at event %d before its init finished", e->tid, e->lib, i);
+                return "VIOLATION:start-python-ok-before-init-finished";
+            }
+            if (init_failed[e->lib] && init_end[e->lib]) {
+                sprintf(detail, "lib%d: cffi_start_python() returned 0 after the failed initialization (event %d)", e->lib, i);
+                return "VIOLATION:start-python-ok-after-failed-init";
+            }
+        }
     }
     for (t = 0; t < nthreads; t++)
         for (k = 0; k < plan_len[t]; k++) {
-            int lib = plan[t][k], arg = 10 * t + k + 1, r = results[t][k];
-            if (behaviour[lib] == BEH_FAIL) {
-                if (r != 0) { sprintf(detail, "lib%d failed to initialize but call(%d) returned %d", lib, arg, r); return "VIOLATION:nonzero-result-after-failed-init"; }
+            int lib = plan[t][k], arg = ARG(t, k), kind = plan_kind[t][k];
+            if (kind == STUB_OP_START) {
+                if (start_res[t][k] != (fails[lib] ? -1 : 0)) {
+                    sprintf(detail, "lib%d (init %s): cffi_start_python() returned %d", lib, fails[lib] ? "fails" : "ok", start_res[t][k]);
+                    return "VIOLATION:start-python-wrong-result";
+                }
+                continue;
             }
-            else if (r != 1000 + 100 * lib + arg) {
-                sprintf(detail, "lib%d call(%d) returned %d, expected %d", lib, arg, r, 1000 + 100 * lib + arg);
-                return "VIOLATION:wrong-result";
+            for (j = 0; j < kind_size[kind]; j++) {
+                int r = results[t][k][j];
+                if (fails[lib]) {
+                    if (r != 0) { sprintf(detail, "lib%d failed to initialize but call(%#x) with a %d-byte result returned byte[%d]=%#x", lib, arg, kind_size[kind], j, r); return "VIOLATION:nonzero-result-after-failed-init"; }
+                }
+                else if (r != stub_result_byte(lib, arg, j)) {
+                    sprintf(detail, "lib%d call(%#x) with a %d-byte result returned byte[%d]=%#x, expected %#x", lib, arg, kind_size[kind], j, r, stub_result_byte(lib, arg, j));
+                    return "VIOLATION:wrong-result";
+                }
             }
         }
     return "OK";
+}
+
+static void print_scenario(unsigned int seed, const char *verdict)
+{
+    int t, k, kinds[5] = {0, 0, 0, 0, 0};
+    for (t = 0; t < nthreads; t++)
+        for (k = 0; k < plan_len[t]; k++) kinds[plan_kind[t][k]]++;
+    printf("S %u %s nthreads=%d nlibs=%d beh=%c%s,%c%s inner=%d,%d pre=%d bar=%d stalls=%d/%d gate=%d hit=%d hold=%d late=%d kinds=%d,%d,%d,%d,%d",
+           seed, verdict, nthreads, nlibs, "NSO"[recurse[0]], fails[0] ? "F" : "", "NSO"[recurse[1]], fails[1] ? "F" : "",
+           recurse[0] ? inner_kind[0] : -1, recurse[1] ? inner_kind[1] : -1,
+           preinit, start_barrier, stalls_taken, nstalls, gate_point, gate_reached, hold_result, late_arrivals,
+           kinds[0], kinds[1], kinds[2], kinds[3], kinds[4]);
+}
+
+static double thread_cpu(pthread_t th)
+{
+    clockid_t cid;
+    struct timespec ts;
+    if (pthread_getcpuclockid(th, &cid) || clock_gettime(cid, &ts)) return 0.0;
+    return ts.tv_sec + ts.tv_nsec * 1e-9;
 }
 
 static int scenario(unsigned int seed)
@@ -240,57 +386,104 @@ static int scenario(unsigned int seed)
     const char *verdict;
     int t, i, polls = 0;
     long last_progress = -1;
+    double cpu0[3] = {0, 0, 0};
     unsigned int sig = 0;
+    static const int kind_of[8] = { 0, 0, 0, 1, 2, 3, 3, STUB_OP_START };
     scen_seed = seed;
     srng = (seed + 0x9e3779b9u) * 2654435761u;
     srng ^= srng >> 15; srng *= 2246822519u; srng ^= srng >> 13; if (!srng) srng = 1;
     srnd(); srnd();
-    nthreads = 1 + srnd() % 3;
+    nthreads = directed ? 2 + srnd() % 2 : 1 + srnd() % 3;
     nlibs = 1 + srnd() % 2;
+    preinit = srnd() % 6 == 0;
     for (i = 0; i < 2; i++) {
         int r = srnd() % 10;
-        behaviour[i] = r < 5 ? BEH_OK : r < 7 ? BEH_FAIL : r < 9 ? BEH_RECURSE_SELF : BEH_CALL_OTHER;
-        if (behaviour[i] == BEH_CALL_OTHER && nlibs == 1) behaviour[i] = BEH_RECURSE_SELF;
+        fails[i] = srnd() % 10 < 3;
+        recurse[i] = directed ? (r < 2 ? 0 : r < 7 ? 1 : 2) : (r < 5 ? 0 : r < 8 ? 1 : 2);
+        if (recurse[i] == 2 && nlibs == 1) recurse[i] = 1;
+        inner_kind[i] = kind_of[srnd() % 8];
     }
     /* lib A's init calling lib B whose init calls lib A again is a user-level cycle */
-    if (behaviour[0] == BEH_CALL_OTHER && behaviour[1] == BEH_CALL_OTHER) behaviour[1] = BEH_OK;
-    /* the result of a call made from inside failing init code is unspecified */
-    for (i = 0; i < 2; i++)
-        if (behaviour[i] == BEH_CALL_OTHER && behaviour[1 - i] == BEH_FAIL) behaviour[i] = BEH_OK;
+    if (recurse[0] == 2 && recurse[1] == 2) recurse[1] = 0;
+    memset(results, 0xEE, sizeof(results));
     for (t = 0; t < nthreads; t++) {
         plan_len[t] = 1 + srnd() % 3;
-        for (i = 0; i < plan_len[t]; i++) plan[t][i] = srnd() % nlibs;
+        for (i = 0; i < plan_len[t]; i++) {
+            plan[t][i] = srnd() % nlibs;
+            plan_kind[t][i] = kind_of[srnd() % 8];
+            start_res[t][i] = -99;
+        }
     }
+    if (directed) {
+        int cand[4], nc = 0, l0 = plan[0][0];
+        if (!preinit) cand[nc++] = 1;
+        cand[nc++] = 2;
+        if (recurse[l0]) { cand[nc++] = 4; cand[nc++] = 3; }
+        gate_point = cand[srnd() % nc];
+        if (gate_point == 3 && inner_kind[l0] == STUB_OP_START) gate_point = 4;
+        /* the late threads mostly race for the library thread 0 initializes */
+        for (t = 1; t < nthreads; t++)
+            if (srnd() % 4) plan[t][0] = l0;
+    }
+    else
+        start_barrier = srnd() % 2;
+    if (start_barrier) pthread_barrier_init(&barrier, NULL, nthreads);
+    if (nthreads >= 2 && srnd() % 3) {
+        nstalls = 1 + srnd() % 2;
+        for (i = 0; i < nstalls; i++) {
+            stall_tid[i] = srnd() % nthreads;
+            stall_at[i] = srnd() % (i ? 24 : 10);
+            stall_len[i] = 2 + srnd() % 30;
+        }
+    }
+    if (preinit) py_initialized = 1;
     pthread_mutexattr_init(&at);
     pthread_mutexattr_settype(&at, PTHREAD_MUTEX_RECURSIVE);
     pthread_mutex_init(&gil, &at);
     for (t = 0; t < nthreads; t++)
         pthread_create(&th[t], NULL, worker, (void *)(long)t);
-    /* logical deadlock detection: every unfinished thread recorded as waiting and
-       no non-spin event over many polls; the wall-clock alarm alone = inconclusive */
+    /* logical deadlock / livelock detection: no non-spin event over many polls
+       while every unfinished thread is either recorded as waiting or has burnt
+       more than a second of CPU time since the last event (spinning on a plain
+       read); the wall-clock alarm alone = inconclusive */
     while (1) {
-        int alldone = 1, allwaiting = 1;
+        int alldone = 1, allstuck = 1, spinning = 0;
         for (t = 0; t < nthreads; t++)
-            if (!finished[t]) { alldone = 0; if (!thread_wait[t]) allwaiting = 0; }
+            if (!finished[t]) {
+                alldone = 0;
+                if (thread_wait[t]) continue;
+                if (progress == last_progress && thread_cpu(th[t]) - cpu0[t] > 1.0) spinning++;
+                else allstuck = 0;
+            }
         if (alldone) break;
         usleep(2000);
-        if (allwaiting && progress == last_progress) {
+        if (allstuck && progress == last_progress) {
             if (++polls > 1500) {
-                printf("S %u VIOLATION:deadlock nthreads=%d nlibs=%d beh=%d,%d events=%d all unfinished threads wait (states %d %d %d) and the log stopped\n",
-                       seed, nthreads, nlibs, behaviour[0], behaviour[1], nev, thread_wait[0], thread_wait[1], thread_wait[2]);
+                verdict = spinning ? "VIOLATION:livelock" : "VIOLATION:deadlock";
+                (void)check(detail);
+                print_scenario(seed, verdict);
+                printf(" events=%d all unfinished threads wait or spin without any event (states %d %d %d, %d spinning on a plain read) and the log stopped\n",
+                       nev, thread_wait[0], thread_wait[1], thread_wait[2], spinning);
                 fflush(stdout);
-                _exit(0);
+                _exit(3);
             }
         }
-        else { polls = 0; last_progress = progress; }
+        else if (progress != last_progress) {
+            polls = 0; last_progress = progress;
+            for (t = 0; t < nthreads; t++) cpu0[t] = finished[t] ? 0.0 : thread_cpu(th[t]);
+        }
+        else polls = 0;
     }
     for (t = 0; t < nthreads; t++) pthread_join(th[t], NULL);
     verdict = check(detail);
     for (i = 0; i < nev && i < MAXEV; i++)
         if (evlog[i].kind != EV_CAS || evlog[i].a)
             sig = sig * 31u + (unsigned)(evlog[i].tid * 64 + (evlog[i].lib + 1) * 16 + evlog[i].kind);
-    printf("S %u %s nthreads=%d nlibs=%d beh=%d,%d sig=%08x events=%d pyinit=%d %s\n", seed, verdict,
-           nthreads, nlibs, behaviour[0], behaviour[1], sig, nev, py_init_count, detail);
+    if (getenv("EMBED_STUB_DUMP"))
+        for (i = 0; i < nev && i < MAXEV; i++)
+            printf("E %d tid=%d lib=%d kind=%d a=%#x\n", i, evlog[i].tid, evlog[i].lib, evlog[i].kind, evlog[i].a);
+    print_scenario(seed, verdict);
+    printf(" sig=%08x events=%d pyinit=%d %s\n", sig, nev, py_init_count, detail);
     fflush(stdout);
     return 0;
 }
@@ -298,11 +491,17 @@ static int scenario(unsigned int seed)
 int main(int argc, char **argv)
 {
     unsigned int first = argc > 1 ? (unsigned)strtoul(argv[1], NULL, 10) : 1;
-    int count = argc > 2 ? atoi(argv[2]) : 1, i;
-    heavy = argc > 3 ? atoi(argv[3]) : 0;
+    int count = argc > 2 ? atoi(argv[2]) : 1, i, hangs = 0;
+    int mode = argc > 3 ? atoi(argv[3]) : 0;
+    heavy = mode & 1;
+    directed = (mode >> 1) & 1;
     for (i = 0; i < count; i++) {
         pid_t pid;
         int status;
+        if (hangs >= 2) {               /* every hang costs seconds: two witnesses are enough */
+            printf("S %u SKIPPED\n", first + (unsigned)i);
+            continue;
+        }
         fflush(stdout);
         pid = fork();
         if (pid == 0) {
@@ -313,11 +512,15 @@ int main(int argc, char **argv)
         }
         waitpid(pid, &status, 0);
         if (WIFSIGNALED(status)) {
-            if (WTERMSIG(status) == SIGALRM)
+            if (WTERMSIG(status) == SIGALRM) {
                 printf("S %u WATCHDOG\n", first + (unsigned)i);
+                hangs++;
+            }
             else
                 printf("S %u VIOLATION:crash signal=%d\n", first + (unsigned)i, WTERMSIG(status));
         }
+        else if (WIFEXITED(status) && WEXITSTATUS(status) == 3)
+            hangs++;
     }
     return 0;
 }
